@@ -213,12 +213,27 @@ pub fn shard_fault(def: &E2Def, tier: &str, seed: u64, shard: u32, programs: u32
     let mut out = ShardOut::default();
     let mut stats: BTreeMap<String, u64> = BTreeMap::new();
     let mut rng = seed ^ (u64::from(shard) << 35) ^ 0x7777_1234;
-    'prog: for _ in 0..programs {
+    'prog: for pi in 0..programs {
         let mut case = cs.new_tree(&mut r).unwrap().current();
         for k in &mut case.cfg.ks {
             if matches!(k.strategy, Strat::FifoNoEvict) {
                 k.strategy = Strat::LeveledDefault;
             }
+        }
+        // every sixth program: database-level manual journal persist with explicit persist(Buffer)
+        // calls between the writes (the journal is then only written by persist or when the 8 KiB
+        // buffer overflows, so the injected failure lands in those calls)
+        if pi % 6 == 5 {
+            case.cfg.db_manual_persist = true;
+            let mut ops = vec![];
+            for (i, op) in case.ops.drain(..).enumerate() {
+                ops.push(op);
+                if i % 3 == 1 {
+                    ops.push(Op::Persist { mode: 0 });
+                }
+            }
+            case.ops = ops;
+            *stats.entry("manual_persist_programs".into()).or_insert(0) += 1;
         }
         // count run with journal scope gives the journal call list
         let cr = {
